@@ -20,7 +20,8 @@ PAYLOAD = {'intArray': ('Int', 'intValue'), 'longArray': ('Long', 'longValue'), 
            'stringArray': ('String', 'stringValue'), 'charArray': ('Char', 'charValue'), 'qubitArray': ('Qubit', 'qubit')}
 ARRS = [('intArray', 'int', 'IntArray'), ('longArray', 'long', 'LongArray'), ('floatArray', 'double', 'FloatArray'), ('bitArray', 'int', 'BitArray'),
         ('boolArray', '_Bool', 'BooleanArray'), ('stringArray', 'bl_str', 'StringArray'), ('charArray', 'char', 'CharArray')]
-DROPS = ['region array_load: the IndexExpression branch of eval (`a[i]`), whole; the Value constructors {tag, int, float, bit} are a model that sets exactly those members',
+DROPS = ['region eval_cast: the CastExpression branch of eval, whole; typeInfoFromAst(cast->targetType).kind is an uninterpreted function of the type node; float payloads lie inside the int range (see ASSUMPTIONS)',
+         'region array_load: the IndexExpression branch of eval (`a[i]`), whole; the Value constructors {tag, int, float, bit} are a model that sets exactly those members',
          'region array_store: the ArrayAssignmentExpression branch of eval from `Value arr = lookup(var->name);` to its end (the check that the target is a variable comes before it); the node\'s line / column become parameters, its sub-expressions opaque ids',
          'Value keeps type, the scalar payloads and the seven element vectors that can be stored into; each vector is an inline array of at most AMAXS = 4 elements with its size (operator[] asserts the index is inside the vector: that assertion is the memory-safety obligation); strings are interned ids; diagnostic text is dropped',
          'lookup(name) returns an arbitrary well-formed Value (kept as ghost g_arr0); eval(sub-expression) an arbitrary Value or a Runtime error; assign(name, arr) records what is stored (ghost)']
@@ -43,6 +44,8 @@ class Profile(Lower):
         (r'^std::(vector<bool>::reference|_Bit_reference)$', '_Bool'),
         (r'^(std::)?int64_t$', 'long'),
         (r'^std::unique_ptr<.*Expression.*>$', 'bl_ast'),
+        (r'^std::unique_ptr<(bloch::compiler::)?Type(, std::default_delete<.*>)?>$', 'bl_ast'),
+        (r'^char$', 'char'),
         (r'^(bloch::compiler::|bloch::runtime::)?(Expression|VariableExpression) \*$', 'bl_ast'),
     ]
 
@@ -78,6 +81,17 @@ class Profile(Lower):
             return 'BL_' + rd['name']
         return super().declref(n)
 
+    def decl(self, v):
+        if v.get('name') == 'target' and 'RuntimeTypeInfo' in qt(v):
+            calls = []
+            walk(v, lambda z: calls.append(z) if z.get('kind') in ('CXXMemberCallExpr', 'CallExpr') else None)
+            names = [strip(kids(c)[0]).get('name') or callee_name(kids(c)[0]) for c in calls]
+            if 'typeInfoFromAst' not in names:
+                raise Unsupported('cast target is no longer typeInfoFromAst(cast->targetType)')
+            self.locals.add('target')
+            return 'int target_kind = astore_target_kind(cast_targetType);   /* typeInfoFromAst(cast->targetType.get()).kind */'
+        return super().decl(v)
+
     def string_literal(self, n):
         return '0'
 
@@ -88,6 +102,10 @@ class Profile(Lower):
             return 'aassign_%s' % n['name']
         if sb.get('kind') == 'DeclRefExpr' and sb['referencedDecl']['name'] == 'indexExpr' and n['name'] in ('line', 'column', 'index', 'collection'):
             return 'indexExpr_%s' % n['name']
+        if sb.get('kind') == 'DeclRefExpr' and sb['referencedDecl']['name'] == 'cast' and n['name'] in ('line', 'column', 'expression', 'targetType'):
+            return 'cast_%s' % n['name']
+        if sb.get('kind') == 'DeclRefExpr' and sb['referencedDecl']['name'] == 'target' and n['name'] == 'kind':
+            return 'target_kind'
         if sb.get('kind') == 'DeclRefExpr' and sb['referencedDecl']['name'] == 'var' and n['name'] == 'name':
             return 'var_name'
         if self.ct(sb) == 'Value':
@@ -205,6 +223,21 @@ def lower_regions(docs, prof):
             prof.region_unlowered = {}
         prof.region_unlowered['array_load'] = str(e)
         out.append((hl, None))
+    hc = 'Value astore_eval_cast(int cast_line, int cast_column, bl_ast cast_expression, bl_ast cast_targetType)'
+    try:
+        ds = cxx2c.find_functions(docs, 'eval')
+        body = [k for k in kids(ds[0]) if k.get('kind') == 'CompoundStmt'][0]
+        n, cst = find_region(body, 'cast')
+        if not any('CastExpression' in c for c in cst):
+            raise Unsupported('region `cast` is no longer the dynamic_cast<CastExpression*> branch')
+        d = dict(kind='FunctionDecl', name='eval_cast', type=dict(qualType='bloch::runtime::Value ()'), inner=[kids(n)[2]])
+        h, lines = prof.func(d, cname='eval_cast', is_method=False)
+        out.append((hc, lines))
+    except Unsupported as e:
+        if not hasattr(prof, 'region_unlowered'):
+            prof.region_unlowered = {}
+        prof.region_unlowered['eval_cast'] = str(e)
+        out.append((hc, None))
     return out
 
 
@@ -228,6 +261,9 @@ static inline Value astore_value_ctor(int t, int i, double f, int b, bl_str s, c
 _Bool nondet_bool(void); Value nondet_Value(void);
 #define SIZES_OK(v) (""" + ' && '.join('(v).%s.size <= AMAXS' % nm for nm, _, _ in ARRS + LOAD_ONLY) + r""")
 static inline Value astore_lookup(bl_str name) { return g_arr0; }
+int __CPROVER_uninterpreted_target_kind(bl_ast);
+static inline int astore_target_kind(bl_ast t) { return __CPROVER_uninterpreted_target_kind(t); }
+#define TKIND __CPROVER_uninterpreted_target_kind(cast_targetType)
 /* evaluation of the index / the right-hand side: an arbitrary value (first call: the index, second: the value), or a Runtime error */
 static inline Value astore_eval(bl_ast e) {
   Value v = nondet_Value();
@@ -312,7 +348,24 @@ CONTRACTS['array_load'] = {
         E('eval.array_load.result_is_the_element', '(bl_exc == 0 && (long)LIDX >= 0 && (long)LIDX < AMAXS) ==> ' + lsel('%s.type == VTAG && EQ(%s.FLD, g_ev0.ARR.data[LIDX])' % (RET, RET), '0'), ['C07']),
     ],
 }
+CONTRACTS['eval_cast'] = {
+    'contract': [
+        R('bl_exc == 0 && g_evals == 0'),
+        A('bl_exc, bl_exc_line, bl_exc_col, g_evals, g_ev0, g_ev1'),
+        E('eval.cast.only_runtime_errors_at_the_cast', 'bl_exc == 0 || (bl_exc == EXC_RT && (g_evals == 0 || (bl_exc_line == cast_line && bl_exc_col == cast_column)))', ['C12', 'C13']),
+        E('eval.cast.result_has_the_target_type', '(bl_exc == 0) ==> (g_evals == 1 && %s.type == TKIND)' % RET, ['C07']),
+        # docs/casting.md: widening int/bit -> float is exact; narrowing float -> int truncates toward zero; (bit) of a non-zero value is 1
+        E('eval.cast.to_int', '(bl_exc == 0 && TKIND == BL_Int) ==> ((g_ev0.type == BL_Int ==> %s.intValue == g_ev0.intValue) && (g_ev0.type == BL_Bit ==> %s.intValue == g_ev0.bitValue) && (g_ev0.type == BL_Float ==> (g_ev0.floatValue >= 0.0 ? ((double)%s.intValue <= g_ev0.floatValue && g_ev0.floatValue < (double)%s.intValue + 1.0) : ((double)%s.intValue >= g_ev0.floatValue && g_ev0.floatValue > (double)%s.intValue - 1.0))))' % ((RET,) * 6), ['C07']),
+        E('eval.cast.to_float', '(bl_exc == 0 && TKIND == BL_Float) ==> ((g_ev0.type == BL_Int ==> %s.floatValue == (double)g_ev0.intValue) && (g_ev0.type == BL_Bit ==> %s.floatValue == (double)g_ev0.bitValue) && (g_ev0.type == BL_Long ==> %s.floatValue == (double)g_ev0.longValue) && (g_ev0.type == BL_Float ==> __CPROVER_equal(%s.floatValue, g_ev0.floatValue)))' % ((RET,) * 4), ['C07']),
+        E('eval.cast.to_bit', '(bl_exc == 0 && TKIND == BL_Bit) ==> ((g_ev0.type == BL_Bit ==> %s.bitValue == g_ev0.bitValue) && (g_ev0.type == BL_Int ==> %s.bitValue == (g_ev0.intValue != 0 ? 1 : 0)) && (g_ev0.type == BL_Long ==> %s.bitValue == (g_ev0.longValue != 0 ? 1 : 0)) && (g_ev0.type == BL_Float ==> %s.bitValue == (g_ev0.floatValue != 0.0 ? 1 : 0)))' % ((RET,) * 4), ['C07']),
+        E('eval.cast.to_long_widens', '(bl_exc == 0 && TKIND == BL_Long) ==> ((g_ev0.type == BL_Int ==> %s.longValue == (long)g_ev0.intValue) && (g_ev0.type == BL_Long ==> %s.longValue == g_ev0.longValue) && (g_ev0.type == BL_Bit ==> %s.longValue == (long)g_ev0.bitValue))' % ((RET,) * 3), ['C07']),
+        E('eval.cast.class_string_and_array_values_cannot_be_cast', '(g_evals == 1 && (g_ev0.type == BL_String || g_ev0.type == BL_Object || g_ev0.type == BL_IntArray || g_ev0.type == BL_Void)) ==> bl_exc == EXC_RT', ['C07']),
+        E('eval.cast.documented_numeric_casts_succeed', '(g_evals == 1 && (TKIND == BL_Int || TKIND == BL_Float || TKIND == BL_Bit) && (g_ev0.type == BL_Int || g_ev0.type == BL_Float || g_ev0.type == BL_Bit)) ==> bl_exc == 0', ['C07']),
+    ],
+}
 HARNESSES = [
+    dict(name='eval_cast', fn='eval_cast', replace=[], flags=[], props=['C07', 'C12', 'C13'], timeout=600,
+         canaries=[('bl_exc == 0', 'converted'), ('bl_exc != 0 && g_evals == 1', 'invalid cast')]),
     dict(name='array_load', fn='array_load', replace=[], flags=[], props=['C12', 'C07', 'C13'], timeout=600,
          canaries=[('bl_exc == 0', 'loaded'), ('bl_exc != 0 && g_evals == 2', 'refused after both operands were evaluated')]),
     dict(name='array_store', fn='array_store', replace=[], flags=[], props=['C12', 'C07', 'C13'], timeout=600,
